@@ -22,7 +22,7 @@ ASSUMPTIONS = [
     "SimDatagramTransport reproduces the asyncio datagram-transport contract (selftest fidelity)",
     "an instance whose OID equals a root may or may not be reported (as the property states)",
 ]
-PROBES = ["root_past_end", "empty_subtree_root", "eom_before_value", "subtree_ends_view", "uneven", "three_roots",
+PROBES = ["earlier_overlapping_walk", "root_past_end", "empty_subtree_root", "eom_before_value", "subtree_ends_view", "uneven", "three_roots",
           "lossy_completed", "lossy_timeout"]
 shrink_lists = [("roots",), ("mib",), ("faults", "explicit")]
 
@@ -40,8 +40,20 @@ def plan_for(tier: str, seed: int, i: int) -> dict:
     if api in ("walk", "pywalk"):
         roots = roots[:1]
     lossy = rng.random() < 0.25
+    # an earlier walk on the same client over different but overlapping roots (a sub-tree of a root, or a parent of
+    # several): nothing learnt there may influence the walk under test
+    prng = rng_for(seed, ID, tier + ":pre", i)
+    pre_roots: List[tuple] = []
+    if prng.random() < 0.3:
+        keys = [o for o, _ in mib]
+        below = [o for o in keys if any(len(o) > len(r) + 1 and o[:len(r)] == r for r in roots)]
+        if below and prng.random() < 0.6:
+            o = prng.choice(below)
+            pre_roots = [o[:-1]]                               # a column / sub-tree below a root
+        else:
+            pre_roots = [roots[0][:-1]]                        # the parent of a root
     return {
-        "prop": ID, "proto": gen_proto(rng), "mib": mib, "roots": roots, "api": api,
+        "prop": ID, "proto": gen_proto(rng), "mib": mib, "roots": roots, "api": api, "pre_roots": pre_roots,
         "perms": (not lossy) and len(roots) in (2, 3),
         "faults": gen.gen_faults(rng, lossy), "lossy": lossy,
         "clock": gen.gen_clock(rng), "timeout": 2, "retries": rng.choice([2, 3, 5]),
@@ -73,6 +85,10 @@ def simplify(plan: dict):
     if plan.get("perms"):
         p = dict(plan)
         p["perms"] = False
+        yield p
+    if plan.get("pre_roots"):
+        p = dict(plan)
+        p["pre_roots"] = []
         yield p
     # replace values by small integers
     if any(v != ("int", 1) for _, v in plan["mib"]):
@@ -107,8 +123,17 @@ def run_walk(plan: dict, roots: List[tuple], walker: Any = _do_walk, extra: Any 
     got: List[tuple] = []
     exc = None
 
+    n_before = [0]
+
     async def main() -> None:
         nonlocal got
+        pre = [tuple(r) for r in plan.get("pre_roots") or []]
+        if pre:
+            try:
+                await walker(client, "multiwalk" if plan["api"] in ("multiwalk", "pymultiwalk", "walk", "pywalk") else plan["api"], pre)
+            except Exception:  # noqa: BLE001
+                pass            # the earlier walk is not under test here (it is some other plan's walk under test)
+        n_before[0] = len(agent.requests)
         got = await walker(client, plan["api"], roots)
 
     partial: List[tuple] = []
@@ -127,7 +152,7 @@ def run_walk(plan: dict, roots: List[tuple], walker: Any = _do_walk, extra: Any 
         if violation is None:
             violation = {"clause": clause, "detail": "%s roots=%s" % (d, [S.oid_str(r) for r in roots])}
 
-    ok_reqs = [r for r in agent.requests if r["verdict"] == "ok"]
+    ok_reqs = [r for r in agent.requests[n_before[0]:] if r["verdict"] == "ok"]
     if exc is not None:
         if lossy and type(exc).__name__ == "Timeout":
             pass
@@ -198,7 +223,7 @@ def execute(plan: dict) -> dict:
         "eom_before_value": int(first["eom_before_value"]),
         "subtree_ends_view": int(any(last is not None and s > 0 and last[:len(r)] == r for r, s in zip(roots, sizes))),
         "uneven": int(len(sizes) > 1 and min(sizes) > 0 and max(sizes) >= 4 * min(sizes)),
-        "three_roots": int(len(roots) >= 3),
+        "three_roots": int(len(roots) >= 3), "earlier_overlapping_walk": int(bool(plan.get("pre_roots"))),
         "lossy_completed": int(bool(plan.get("lossy")) and first["exc"] is None),
         "lossy_timeout": int(bool(plan.get("lossy")) and first["exc"] == "Timeout"),
     }
